@@ -578,6 +578,27 @@ class ExecSim(object):
             if dt > 0:
                 _real_sleep(dt)
             if what == 'bulk':
+                if case.get('hold_watcher') and \
+                        hasattr(self.comp, '_check_running'):
+                    # the watcher is held up in its pass (as by a slow
+                    # hand-over downstream) until the whole bulk is spawned:
+                    # everything the intake started waits for one take-over
+                    hold  = mt.Event()
+                    inner = self.comp._check_running
+                    def held(to_watch, inner=inner, hold=hold):
+                        hold.wait(timeout=30)
+                        return inner(to_watch)
+                    self.comp._check_running = held
+                    def release(uids=uids, hold=hold):
+                        end = time.time() + 30
+                        while time.time() < end and \
+                                not all(u in self.pids for u in uids):
+                            _real_sleep(0.005)
+                        _real_sleep(0.05)
+                        hold.set()
+                    mt.Thread(target=release, daemon=True,
+                              name='watcher-release').start()
+                    self.hits.add('watcher_held')
                 self.env.put(rpc.AGENT_EXECUTING_QUEUE, [tds[u] for u in uids])
             elif what == 'startup':
                 # what `$RP_CTRL <sid> task_startup_done uid=<uid>` of the
